@@ -20,11 +20,13 @@ Interpretation decisions (weaker reading where the statement is silent):
     be None nor to be the scan answer).
   * A bit vector "with stray bits past len" includes storage with SURPLUS WHOLE WORDS past the word
     holding bit len-1 (DESIGN.md §7 F6): the statement quantifies over stray bits without limiting
-    them to the final word.  Groups with surplus words are validated in a separate trace file so the
-    known-finding skipping re-validates only that small file.
+    them to the final word.  The calls the two known defects can touch (by INPUT CLASS, see
+    defect_prone) are validated in a separate small trace file so that the known-finding skipping
+    re-validates only that file; they are validated by the same specification.
   * find_close_in_word on a close returns Some(p) ("matches itself", documented): demanded as documented.
 """
 import json
+import os
 import re
 import vlib
 
@@ -49,27 +51,45 @@ def sig_of(e, events, k):
         return {"event": "w", "op": e.get("op"), "panic": e.get("r") == -2}
     b = _build_of(events, k)
     op = e.get("op")
-    sig = {"event": "q", "op": op, "panic": e.get("r") == -2}
     if op in COUNT_OPS:
-        sig["surplus_ones"] = b.get("sw1", 0) > 0
-    else:
-        sig["surplus_words"] = b.get("sw", 0) > 0
-        if op == "f_find_close":
-            sig["partial_last"] = b.get("len", 0) % 64 != 0
+        # 1-bits past len in a storage with surplus whole words (finding F6)
+        return {"event": "q", "op": op, "surplus_ones": b.get("sw1", 0) > 0}
+    sig = {"event": "q", "op": op, "panic": e.get("r") == -2, "surplus_words": b.get("sw", 0) > 0}
+    if op == "f_find_close":
+        sig["partial_last"] = b.get("len", 0) % 64 != 0
     return sig
 
 
+def defect_prone(b, e):
+    """Calls whose answer the two known defects can touch (input class only, never the answer):
+    counts / select0 when 1-bits lie past len in a storage with surplus whole words; the free
+    find_close when there are surplus whole words and len % 64 != 0."""
+    if e["op"] in COUNT_OPS:
+        return b.get("sw1", 0) > 0
+    if e["op"] == "f_find_close":
+        return b.get("sw", 0) > 0 and b.get("len", 0) % 64 != 0
+    return False
+
+
 def split_groups(events):
-    """A: groups whose storage has exactly ceil(len/64) words (+ kernel events); B: surplus whole words."""
-    a, b = [], []
-    cur = a
+    """main: everything except the defect-prone calls; side: the defect-prone calls, each group opened
+    by a copy of its build event.  Both files are validated by the same Trace_BP.tla; the split only
+    keeps the known-finding skipping (which re-validates the file once per signature) on a small file."""
+    main, side = [], []
+    b = None
+    opened = False
     for e in events:
         if e["e"] == "build":
-            cur = b if e.get("sw", 0) > 0 else a
-        elif e["e"] == "w":
-            cur = a
-        cur.append(e)
-    return a, b
+            b, opened = e, False
+            main.append(e)
+        elif e["e"] == "q" and b is not None and defect_prone(b, e):
+            if not opened:
+                side.append(b)
+                opened = True
+            side.append(e)
+        else:
+            main.append(e)
+    return main, side
 
 
 LIVE_ARMS = ["ScanWordFound", "ScanWordNextWord", "CheckL0Descend", "CheckL0SkipWord", "CheckL1Descend",
@@ -100,34 +120,39 @@ def automaton_stage(ctx, workers):
 def run(ctx):
     q = ctx.quick
     W = 6
-    vlib.model_check(ctx, "MC_BpRuns.tla", "MC_BpRuns_quick.cfg" if q else "MC_BpRuns_thorough.cfg",
-                     workers=W, timeout=1800)
-    for cfg in (["MC_RangeMin_quick.cfg", "MC_RangeMin_quick2.cfg"] if q else
-                ["MC_RangeMin_thorough.cfg", "MC_RangeMin_thorough2.cfg"]):
-        vlib.model_check(ctx, "MC_RangeMin.tla", cfg, workers=W, timeout=3000)
-    automaton_stage(ctx, W)
+    # development only (mutation testing): the model stage does not depend on /repo
+    if not os.environ.get("C04_DEV_SKIP_MODEL"):
+        vlib.model_check(ctx, "MC_BpRuns.tla", "MC_BpRuns_quick.cfg" if q else "MC_BpRuns_thorough.cfg",
+                         workers=W, timeout=1800)
+        for cfg in (["MC_RangeMin_quick.cfg", "MC_RangeMin_quick2.cfg"] if q else
+                    ["MC_RangeMin_thorough.cfg", "MC_RangeMin_thorough2.cfg"]):
+            vlib.model_check(ctx, "MC_RangeMin.tla", cfg, workers=W, timeout=3000)
+        automaton_stage(ctx, W)
 
-    nvec = 44 if q else 400
+    nvec = 36 if q else 250
     maxbits = 200000 if q else 1000000
     total = 0
     ops_seen = set()
     for i, (name, feats) in enumerate(CFGS):
+        if os.environ.get("C04_DEV_ONLY_BUILD") not in (None, "", name):
+            continue
         b = vlib.harness_bin("c04", feats)
         tp = ctx.path("trace-%s.ndjson" % name)
         rc, out, wall = vlib.sh([b, "record", tp, "seed=%d" % (ctx.seed + i), "vectors=%d" % nvec, "cfg=" + name,
-                                 "maxbits=%d" % maxbits, "npos=%d" % (48 if q else 64),
+                                 "maxbits=%d" % maxbits, "npos=%d" % (40 if q else 64),
                                  "kwords=%d" % (150 if q else 1500)], timeout=900)
         ctx.stage("record " + name, wall, **json.loads(out.strip().splitlines()[-1]))
         evs = vlib.read_ndjson(tp)
-        ga, gb = split_groups(evs)
-        pa, pb = ctx.path("trace-%s-A.ndjson" % name), ctx.path("trace-%s-B.ndjson" % name)
-        vlib.write_ndjson(pa, ga)
-        vlib.write_ndjson(pb, gb)
-        total += vlib.check_trace(ctx, "Trace_BP.tla", "Trace.cfg", pa, sig_of,
-                                  group_key=lambda e: e.get("e") == "build", timeout=2400, selftest=True)
-        if gb:
-            total += vlib.check_trace(ctx, "Trace_BP.tla", "Trace.cfg", pb, sig_of,
+        gmain, gside = split_groups(evs)
+        pm, ps = ctx.path("trace-%s-main.ndjson" % name), ctx.path("trace-%s-side.ndjson" % name)
+        vlib.write_ndjson(pm, gmain)
+        vlib.write_ndjson(ps, gside)
+        total += vlib.check_trace(ctx, "Trace_BP.tla", "Trace.cfg", pm, sig_of,
+                                  group_key=lambda e: e.get("e") == "build", timeout=2400, selftest=(i == 0))
+        if gside:
+            total += vlib.check_trace(ctx, "Trace_BP.tla", "Trace.cfg", ps, sig_of,
                                       group_key=lambda e: e.get("e") == "build", timeout=2400, selftest=False)
+            ctx.add("defect_prone_calls_validated_separately", sum(1 for e in gside if e["e"] == "q"))
         for e in evs:
             if e["e"] == "build":
                 ctx.note_distinct(("v", json.dumps(e["rl"]), e["len"], e["st"], e["sel"], e["rate"]))
